@@ -74,7 +74,11 @@ static void program_case(unsigned prog, int len, int big_ok) {
       g_case_place = PL[rng_u64(r) % ARRAY_LEN(PL)];
       g_case_aligned = g_case_place == 0 && (rng_u64(r) & 7) == 0;
     }
-    op_exec(o, e, ws[w].seed, prefill, mis, MON_CANARY, &res);
+    // one call in four is followed by a second call on the SAME buffers holding OTHER data, compared with a fresh call on that data
+    const unsigned recontent = (rng_u64(r) & 3) == 0 ? MON_RECONTENT : 0;
+    op_exec(o, e, ws[w].seed, prefill, mis, MON_CANARY | recontent, &res);
+    if (recontent && !res.skipped) cnt("same_buffers_other_data_calls", 1);
+    if (res.rerun_differs) viol("history", "%s [N=%" PRIu64 " %s seed=%" PRIu64 " shape=%s]: %s", o->name, e->N, ws[w].native ? "native" : "generic", ws[w].seed, res.shape, res.msg);
     cntf("placement:%d", 1, g_case_place);
     g_case_place = 0;
     g_case_aligned = 0;
